@@ -32,8 +32,10 @@ def selections(names):
 
 class C03(Prop):
     id = 'C03'
-    theorems = ['C03.semOf_eq_spec', 'C03.total', 'C03.reject', 'C03.order_free', 'C03.order_free_expected', 'C03.at_most_one']
-    proof_modules = ['DznProofs.C03']
+    theorems = ['C03.semOf_eq_spec', 'C03.total', 'C03.reject', 'C03.order_free', 'C03.order_free_expected', 'C03.at_most_one',
+                'C03.exposed_port_semantics', 'C03.injected_needs_no_semantics', 'C13.uncovered_port',
+                'C13.selection_rejected']
+    proof_modules = ['DznProofs.C03', 'DznProofs.C03Build', 'DznProofs.C13Invalid']
     level_rule = ('pairs of port selections (wildcard or any non-empty name set incl. unknown names) on the '
                   'provides and the requires side against every set of provides/requires port names: '
                   'exhaustive up to 2 names per side + 1 unknown in quick, 3 per side in thorough, sampled '
